@@ -362,11 +362,13 @@ impl Model {
                                 .filter(|(_, s)| s.retained_due && match3(&self.log[idx], &s.path) != M3::No)
                                 .map(|(k, _)| k)
                                 .collect();
+                            // (replays credited to subscriptions whose replay phase is over stay)
+                            let movable = |e: &(usize, String, u64)| e.1 == topic_s && c.subs.get(e.0).is_some_and(|s| s.retained_due);
                             let mut items: Vec<(u8, usize, u64)> = view
                                 .retained_got
                                 .iter()
                                 .zip(view.retained_got_qos.iter())
-                                .filter(|((_, t, _), _)| *t == topic_s)
+                                .filter(|(e, _)| movable(e))
                                 .map(|((_, _, ser), q)| (*q, self.by_serial.get(ser).copied().unwrap_or(idx), *ser))
                                 .collect();
                             items.push((qos, idx, self.log[idx].serial));
@@ -394,7 +396,7 @@ impl Model {
                                 let mut keep_got = Vec::new();
                                 let mut keep_qos = Vec::new();
                                 for (e, q) in view.retained_got.iter().zip(view.retained_got_qos.iter()) {
-                                    if e.1 != topic_s {
+                                    if !movable(e) {
                                         keep_got.push(e.clone());
                                         keep_qos.push(*q);
                                     }
